@@ -77,6 +77,23 @@ func (e *Engine) VerifyFunc(fn *ssa.Function, ct *FuncContract) (obls []*Obligat
 	sc := c.contractScope(fn, ct, fv, args, st, st, nil)
 	for _, r := range ct.Requires {
 		c.fact(c.translateBool(sc, r.E))
+		// a precondition that is just a boolean parameter (or its negation) fixes that parameter
+		switch e := r.E.(type) {
+		case *EIdent:
+			for i, p := range fn.Params {
+				if p.Name() == e.Name && sortOf(p.Type()) == SBool {
+					fr.env[p], args[i] = True, True
+				}
+			}
+		case *EUnary:
+			if id, ok := e.X.(*EIdent); ok && e.Op == "!" {
+				for i, p := range fn.Params {
+					if p.Name() == id.Name && sortOf(p.Type()) == SBool {
+						fr.env[p], args[i] = False, False
+					}
+				}
+			}
+		}
 	}
 	// vacuity guard: the precondition (with type invariants) must be satisfiable
 	c.prove("vacuity", "preconditions are satisfiable (this query must be SAT)", True, False, nil)
@@ -104,6 +121,17 @@ func (e *Engine) VerifyFunc(fn *ssa.Function, ct *FuncContract) (obls []*Obligat
 			}
 		}
 		c.monitorExit(fr, out, ct)
+		// every program point named by the contract must exist in the current code (no silently vacuous clause)
+		for pt := range ct.Asserts {
+			if !c.pointsHit[FuncKey(fn)+"|"+pt] {
+				unsup("the contract asserts something at %q but the function has no such point any more", pt)
+			}
+		}
+		for n := range ct.Loops {
+			if !c.pointsHit[fmt.Sprintf("%s|loop %d", FuncKey(fn), n)] {
+				unsup("the contract has invariants for loop %d but the function has no such (reachable) loop", n)
+			}
+		}
 		if ct.Opts["frame"] != "skip" {
 			c.frameCheck(fn, ct, args, entry, out)
 		}
@@ -129,7 +157,8 @@ func (c *VCtx) frameCheck(fn *ssa.Function, ct *FuncContract, args []Val, entry,
 	sort.Strings(names)
 	alloc0 := c.allocHeap(entry)
 	for _, k := range names {
-		if k == "G:alloc" || strings.HasPrefix(k, "G:visited") || k == "G:itermap" {
+		if k == "G:alloc" || strings.HasPrefix(k, "G:visited") || k == "G:itermap" || k == "G:calltime" || strings.HasPrefix(k, "G:lastret:") {
+			// engine bookkeeping; always havocked at call sites of contracted functions
 			continue
 		}
 		if allowed[k] == "all" {
